@@ -2,7 +2,8 @@
     Statements only; proofs are in Proofs/Calc*.v. *)
 From Coq Require Import ZArith String.
 From Cicada Require Import Base.Chars Gen.CalcTables Model.Calc
-  Proofs.CalcClassify Proofs.CalcPratt Proofs.CalcFusion Proofs.CalcInt.
+  Proofs.CalcClassify Proofs.CalcPratt Proofs.CalcFusion Proofs.CalcInt Proofs.CalcWf
+  Proofs.CalcPrint Proofs.CalcLine.
 Local Open Scope string_scope.
 
 (** The source sites the hand-written matchers / tokenizer / table were written
@@ -54,70 +55,76 @@ Theorem C19_pratt : forall (L : Type) (prec : op -> N) (left : op -> bool),
   pratt prec left (fun l => Ok (Leaf l)) (fun a o b => Ok (Node o a b)) fuel (flat prec left q) = Ok (strip q).
 Proof. exact pratt_roundtrip. Qed.
 
-(** (2) Integer mode: evaluating inside the parser is evaluating the tree, and outside
-    the known classes the value is the reference value (wrap-around, truncating
-    division, exact powers wrapped), with overflow checks on and off. *)
-Theorem C19_int : forall (checks : bool) (fuel : nat) (ps : list (pair str)) (t : tree str),
-  pratt_tree fuel ps = Ok t -> classes checks t = [] -> eval_int checks fuel ps = Ok (ref_eval t).
+(** (2) Integer mode. [wrapping_pow] (square and multiply with wrapping_mul, u64
+    exponent) is the exact power wrapped to i64, for every exponent below 2^64. *)
+Theorem C19_pow : forall base exp : Z,
+  0 <= exp < 2 ^ 64 -> wrapping_pow base exp = Ok (wrap64 (base ^ exp)).
+Proof. exact wrapping_pow_ok. Qed.
+
+(** Evaluating inside the parser is folding the tree (post-order, leftmost diagnostic wins) ... *)
+Theorem C19_eval_is_fold : forall (fuel : nat) (ps : list (pair str)) (t : tree str),
+  pratt_tree fuel ps = Ok t -> eval_int fuel ps = eval_tree t.
+Proof.
+  exact (fun fuel ps t H => pratt_fold str ires prec_of is_left int_prim int_infix fuel ps t H).
+Qed.
+
+(** ... and the result is the reference value of the tree, for every tree: wrap-around
+    + - *, division truncating toward zero, exact powers wrapped; a diagnostic for an
+    out-of-range literal or a negative exponent. The same in both build profiles: the
+    model has no overflow-check parameter any more. *)
+Theorem C19_int : forall (fuel : nat) (ps : list (pair str)) (t : tree str),
+  pratt_tree fuel ps = Ok t -> eval_int fuel ps = Ok (ref_eval t).
 Proof. exact eval_int_ref. Qed.
 
-Theorem C19_eval_is_fold : forall (checks : bool) (fuel : nat) (ps : list (pair str)) (t : tree str),
-  pratt_tree fuel ps = Ok t -> eval_int checks fuel ps = eval_tree checks t.
-Proof.
-  exact (fun checks fuel ps t H =>
-           pratt_fold str Z prec_of is_left int_prim (int_infix checks) fuel ps t H).
-Qed.
-
-(** (4) Crash freedom of integer evaluation: false of the faithful model. *)
+(** (4) Crash freedom, full: on every line the model of run_calculator reaches no panic
+    site (the structural panics of the Pratt parser, unreachable!()) and exhausts no
+    fuel once the PEG model has accepted the line. The machine stack is not modelled. *)
 Definition C19_nocrash_full : Prop :=
-  forall (checks : bool) (line : str) (r : res Z),
-    run_calculator checks line = RInt r -> exists v, r = Ok v.
+  forall line : str,
+    match run_calculator line with
+    | RInt r => exists v, r = Ok v
+    | RFloat r => exists t, r = Ok t
+    | RSyntax => True
+    | RFuel => parse_calc line = PFuel
+    end.
 
-Definition w_lit := s2l "99999999999999999999 + 1".
-Definition w_pow := s2l "2 ^ 64".
-Definition w_neg := s2l "2 ^ -1".
-Definition w_trunc := s2l "2 ^ 4294967296".
-
-Theorem C19_nocrash_refuted : ~ C19_nocrash_full.
+Theorem C19_nocrash : C19_nocrash_full.
 Proof.
-  intros H. destruct (H false w_lit (Panic SLit)) as [v Hv]; [vm_compute; reflexivity|discriminate].
+  intros line. destruct (run_calculator_cases line) as [E|[[E F]|[[t E]|[t E]]]]; rewrite E; eauto.
 Qed.
 
-(** one witness per class *)
-Example C19_witnesses :
-  (* an out-of-range literal panics in both profiles, through the gate *)
-  try_run_calculator true w_lit = Some (RInt (Panic SLit)) /\
-  try_run_calculator false w_lit = Some (RInt (Panic SLit)) /\
-  Known_C19 false w_lit = true /\
-  (* overflow in pow: panic with overflow checks, 0 without *)
-  try_run_calculator true w_pow = Some (RInt (Panic SPow)) /\
-  try_run_calculator false w_pow = Some (RInt (Ok 0)) /\
-  Known_C19 true w_pow = true /\ Known_C19 false w_pow = false /\
-  (* a negative exponent: panic with overflow checks, a meaningless 0 without *)
-  try_run_calculator true w_neg = Some (RInt (Panic SPow)) /\
-  try_run_calculator false w_neg = Some (RInt (Ok 0)) /\
-  Known_C19 false w_neg = true /\
-  (* exponent truncation: 1 in both profiles where wrap-around arithmetic gives 0 *)
-  try_run_calculator true w_trunc = Some (RInt (Ok 1)) /\
-  try_run_calculator false w_trunc = Some (RInt (Ok 1)) /\
-  Known_C19 false w_trunc = true.
-Proof. vm_compute. repeat split. Qed.
+(** the integer result of a line is the reference value of the line's tree *)
+Theorem C19_line : forall (line : str) (r : res ires),
+  run_calculator line = RInt r -> exists t, line_tree line = Some t /\ r = Ok (ref_eval t).
+Proof. exact run_calculator_int. Qed.
 
-(** the low 32 bits of 2^32 are zero: the implementation computes 2^0 = 1 *)
-Theorem C19_trunc_reference : wrap64 (2 ^ 4294967296) = 0.
-Proof. exact trunc_witness. Qed.
+(** (5) From text to tree. For every expression tree (arbitrary redundant parentheses)
+    whose leaves are literals the num rule reads back whole, and every blank string sp
+    (blanks and tabs, possibly empty) used at every token boundary, inside parentheses
+    and around the line: the PEG model parses the text to the pair list of the standard
+    rendering, the Pratt parser turns that into the tree, integer mode evaluates to the
+    reference value of the tree. Integer literals (optional sign, digits) are such leaves. *)
+Theorem C19_string_tree : forall (sp : str) (q : ptree str),
+  forallb is_blankc sp = true -> leaves_ok q -> line_tree (render_str sp q) = Some (strip q).
+Proof. exact line_tree_render. Qed.
 
-(** Outside the known classes integer evaluation returns the reference value of the
-    line's tree -- in particular it does not crash. *)
-Theorem C19_nocrash_partial : forall (checks : bool) (line : str) (r : res Z),
-  run_calculator checks line = RInt r -> Known_C19 checks line = false ->
-  exists t, line_tree line = Some t /\ r = Ok (ref_eval t).
-Proof. exact run_calculator_partial. Qed.
+Theorem C19_string_int : forall (sp : str) (q : ptree str),
+  forallb is_blankc sp = true -> leaves_ok q -> has_dot (render_str sp q) = false ->
+  run_calculator (render_str sp q) = RInt (Ok (ref_eval (strip q))).
+Proof. exact run_calculator_render. Qed.
 
-(** Without overflow checks only an unreadable literal stops the evaluation of a tree. *)
-Theorem C19_nocrash_release : forall t : tree str,
-  lits_ok t = true -> exists v, eval_tree false t = Ok v.
-Proof. exact eval_tree_release. Qed.
+Theorem C19_string_float : forall (sp : str) (q : ptree str),
+  forallb is_blankc sp = true -> leaves_ok q -> has_dot (render_str sp q) = true ->
+  run_calculator (render_str sp q) = RFloat (Ok (strip q)).
+Proof. exact run_calculator_render_float. Qed.
+
+Theorem C19_int_literals : forall sg ds : str, int_lit sg ds -> leaf_ok (sg ++ ds).
+Proof. exact int_lit_ok. Qed.
+
+(** the PEG model inverts printing of any well-formed pair list *)
+Theorem C19_parse_print : forall (sp : str) (ps : list (pair str)),
+  forallb is_blankc sp = true -> wf_seq leaf_ok ps -> parse_calc (sp ++ str_seq sp ps ++ sp) = POk ps.
+Proof. exact (fun sp ps H W => parse_print sp H ps W). Qed.
 
 Check C19_classify : forall l : str,
   is_arithmetic l = true <->
@@ -125,11 +132,29 @@ Check C19_classify : forall l : str,
    Exists (fun c => is_op_char c = true) l /\ exists c, last_opt l = Some c /\ in_set_b c = true).
 Check C19_pratt_std : forall (L : Type) (q : ptree L) (fuel : nat),
   (2 * tot (render q) + 1 <= fuel)%nat -> pratt_tree fuel (render q) = Ok (strip q).
-Check C19_int : forall (checks : bool) (fuel : nat) (ps : list (pair str)) (t : tree str),
-  pratt_tree fuel ps = Ok t -> classes checks t = [] -> eval_int checks fuel ps = Ok (ref_eval t).
-Check C19_nocrash_partial : forall (checks : bool) (line : str) (r : res Z),
-  run_calculator checks line = RInt r -> Known_C19 checks line = false ->
-  exists t, line_tree line = Some t /\ r = Ok (ref_eval t).
+Check C19_int : forall (fuel : nat) (ps : list (pair str)) (t : tree str),
+  pratt_tree fuel ps = Ok t -> eval_int fuel ps = Ok (ref_eval t).
+Check C19_nocrash : C19_nocrash_full.
+Check C19_string_int : forall (sp : str) (q : ptree str),
+  forallb is_blankc sp = true -> leaves_ok q -> has_dot (render_str sp q) = false ->
+  run_calculator (render_str sp q) = RInt (Ok (ref_eval (strip q))).
+
+(** Regression examples: the inputs of the four classes repaired by c1ba25a. *)
+Definition w_lit := s2l "99999999999999999999 + 1".
+Definition w_pow := s2l "2 ^ 64".
+Definition w_neg := s2l "2 ^ -1".
+Definition w_trunc := s2l "2 ^ 4294967296".
+Example C19_regression :
+  try_run_calculator w_lit = Some (RInt (Ok (IDiag DRange))) /\
+  try_run_calculator w_pow = Some (RInt (Ok (IVal 0))) /\
+  try_run_calculator w_neg = Some (RInt (Ok (IDiag DNegExp))) /\
+  try_run_calculator w_trunc = Some (RInt (Ok (IVal 0))) /\
+  try_run_calculator (s2l "3 ^ 40") = Some (RInt (Ok (IVal (-6289078614652622815)))) /\
+  try_run_calculator (s2l "(5/0) ^ 2") = Some (RInt (Ok (IVal 1))).
+Proof. vm_compute. repeat split. Qed.
+
+Theorem C19_trunc_reference : wrap64 (2 ^ 4294967296) = 0.
+Proof. exact trunc_witness. Qed.
 
 (** Non-vacuity. *)
 Example C19_nonvacuous_classify :
@@ -137,9 +162,6 @@ Example C19_nonvacuous_classify :
   is_arithmetic (s2l "1 +") = false /\ is_arithmetic (s2l "1.5+2 ") = true.
 Proof. vm_compute. repeat split. Qed.
 
-(** 1 - (2 - 3) * 4 ^ (5 ^ 6) ^ 7 with a redundant pair around the 1: the rendering has
-    parentheses around 2 - 3 (lower level on the right of minus ... times) and around
-    5 ^ 6 (left operand of the right-associative power) only, plus the redundant pair *)
 Definition ex_q : ptree nat :=
   QNode Sub (QPar (QLeaf 1%nat))
     (QNode Mul (QNode Sub (QLeaf 2%nat) (QLeaf 3%nat))
@@ -152,25 +174,45 @@ Example C19_nonvacuous_pratt :
 Proof. vm_compute. split; reflexivity. Qed.
 
 Example C19_nonvacuous_int :
-  run_calculator true (s2l " 1 - (2 - 3)*4 ^ 2^3 / -7") = RInt (Ok (-9361)) /\
-  Known_C19 true (s2l " 1 - (2 - 3)*4 ^ 2^3 / -7") = false /\
-  run_calculator true (s2l "9223372036854775807 + 1") = RInt (Ok (-9223372036854775808)) /\
-  Known_C19 true (s2l "9223372036854775807 + 1") = false /\
-  run_calculator true (s2l "-9223372036854775808 / -1") = RInt (Ok (-9223372036854775808)) /\
-  run_calculator true (s2l "-7 / 2") = RInt (Ok (-3)) /\
-  run_calculator true (s2l "5 / 0") = RInt (Ok 9223372036854775807) /\
-  run_calculator true (s2l "3 ^ 39") = RInt (Ok 4052555153018976267) /\
-  Known_C19 true (s2l "3 ^ 39") = false /\ Known_C19 true (s2l "3 ^ 40") = true /\
-  run_calculator true (s2l "1 +") = RSyntax.
+  run_calculator (s2l " 1 - (2 - 3)*4 ^ 2^3 / -7") = RInt (Ok (IVal (-9361))) /\
+  run_calculator (s2l "9223372036854775807 + 1") = RInt (Ok (IVal (-9223372036854775808))) /\
+  run_calculator (s2l "-9223372036854775808 / -1") = RInt (Ok (IVal (-9223372036854775808))) /\
+  run_calculator (s2l "-7 / 2") = RInt (Ok (IVal (-3))) /\
+  run_calculator (s2l "5 / 0") = RInt (Ok (IVal 9223372036854775807)) /\
+  run_calculator (s2l "3 ^ 39") = RInt (Ok (IVal 4052555153018976267)) /\
+  run_calculator (s2l "1 +") = RSyntax.
 Proof. vm_compute. repeat split. Qed.
+
+(** the tree (1) - (2 - -3) * 4 ^ (5 ^ 6) ^ 7 with sp = one blank: its text, and the hypotheses of C19_string_* *)
+Definition ex_s : ptree str :=
+  QNode Sub (QPar (QLeaf (s2l "1")))
+    (QNode Mul (QNode Sub (QLeaf (s2l "2")) (QLeaf (s2l "-3")))
+               (QNode Pow (QLeaf (s2l "4")) (QNode Pow (QNode Pow (QLeaf (s2l "5")) (QLeaf (s2l "6"))) (QLeaf (s2l "+7"))))).
+Example C19_nonvacuous_string :
+  render_str [32%N] ex_s = s2l " ( 1 ) - ( 2 - -3 ) * 4 ^ ( 5 ^ 6 ) ^ +7 " /\
+  render_str [] ex_s = s2l "(1)-(2--3)*4^(5^6)^+7" /\
+  forallb is_blankc [32%N] = true /\ has_dot (render_str [32%N] ex_s) = false /\ leaves_ok ex_s.
+Proof.
+  split; [vm_compute; reflexivity|]. split; [vm_compute; reflexivity|].
+  split; [reflexivity|]. split; [vm_compute; reflexivity|].
+  cbv -[leaf_ok].
+  repeat split;
+    first [ solve [apply (int_lit_ok [] _); split; [auto|split; [discriminate|reflexivity]]]
+          | solve [apply (int_lit_ok [45%N] _); split; [auto|split; [discriminate|reflexivity]]]
+          | solve [apply (int_lit_ok [43%N] _); split; [auto|split; [discriminate|reflexivity]]] ].
+Qed.
 
 Print Assumptions gen_is_expected.
 Print Assumptions C19_classify.
 Print Assumptions C19_pratt_std.
 Print Assumptions C19_pratt.
+Print Assumptions C19_pow.
 Print Assumptions C19_int.
 Print Assumptions C19_eval_is_fold.
-Print Assumptions C19_nocrash_refuted.
-Print Assumptions C19_witnesses.
-Print Assumptions C19_nocrash_partial.
-Print Assumptions C19_nocrash_release.
+Print Assumptions C19_nocrash.
+Print Assumptions C19_line.
+Print Assumptions C19_string_tree.
+Print Assumptions C19_string_int.
+Print Assumptions C19_string_float.
+Print Assumptions C19_int_literals.
+Print Assumptions C19_parse_print.
